@@ -1,1 +1,177 @@
+(* C18 property theorems only. *)
+From Coq Require Import List NArith ZArith QArith Bool.
 From V Require Import lib.Verdict C18.Model C18.Proofs.
+Import ListNotations.
+Open Scope Z_scope.
+
+(* ---- rotateTime (exact Z/Q arithmetic) ---- *)
+
+(* The renewal delay is never negative and never later than expiry, for every ratio/jitter sample
+   (clamping included), every lifetime (also negative: an already expired certificate), provided the
+   certificate was not created in the future or has a non-negative lifetime. *)
+Theorem C18_delay_bounds : forall created expire now jgr,
+  0 <= rotate_delay_q created expire now jgr /\
+  (created <= now \/ created <= expire -> rotate_delay_q created expire now jgr <= Z.max 0 (expire - now)).
+Proof. intros. split; [apply delay_q_nonneg | apply delay_q_upper]. Qed.
+Print Assumptions C18_delay_bounds.
+
+(* K8: "strictly before expiry whenever ratio > jitter" is false as stated: the grace period is truncated
+   to whole nanoseconds. *)
+Theorem C18_renew_strictly_before_refuted :
+  exists created expire now ratio jitter,
+    (jitter < ratio)%Q /\ (ratio <= 1)%Q /\ now < expire /\
+    rotate_delay_q created expire now ratio = expire - now.
+Proof. exists 0, 1, 0, (1 # 2)%Q, 0%Q. repeat split; try reflexivity; discriminate. Qed.
+Print Assumptions C18_renew_strictly_before_refuted.
+
+(* ... and true with the truncation precondition (ratio - jitter) * lifetime >= 1ns, for every jitter
+   sample x in [-jitter, jitter]. *)
+Theorem C18_renew_strictly_before_partial : forall created expire now ratio jitter x,
+  (- jitter <= x)%Q -> (x <= jitter)%Q -> (jitter < ratio)%Q ->
+  1 <= expire - created ->
+  (1 <= (ratio - jitter) * inject_Z (expire - created))%Q ->
+  now < expire ->
+  rotate_delay_q created expire now (ratio + x) < expire - now.
+Proof. exact delay_q_strict. Qed.
+Print Assumptions C18_renew_strictly_before_partial.
+
+Example C18_strict_hyps_satisfiable :
+  rotate_delay_q 0 3600000000000 5 ((1 # 2) + (1 # 10)) < 3600000000000 - 5.
+Proof. apply C18_renew_strictly_before_partial with (jitter := (1 # 10)%Q); try discriminate; reflexivity. Qed.
+
+(* The float-faithful model (the one compared bit for bit with the real rotateTime, and used by the state
+   machine): same bounds for certificates that are not expired at creation. *)
+Theorem C18_delay_bounds_float : forall c created expire now, created <= expire ->
+  0 <= delay_lo c created expire now /\ delay_lo c created expire now <= delay_hi c created expire now
+  /\ delay_hi c created expire now <= Z.max 0 (expire - now).
+Proof. exact delay_lo_hi_bounds. Qed.
+Print Assumptions C18_delay_bounds_float.
+
+(* ---- the cache state machine: all theorems are over arbitrary action lists = all interleavings of the
+   atomic steps of any number of GenerateSecret callers, CA answers, timer firings, trust-bundle updates
+   and clock ticks ---- *)
+
+(* Every answer carries a private key and a certificate that stem from the same CSR. *)
+Theorem C18_pair : forall c l t at_ r,
+  In (ERet t at_ (Some r)) (snd (run c init l)) -> r_key r = r_cert r.
+Proof. exact pair_all. Qed.
+Print Assumptions C18_pair.
+
+(* From any reachable state, in any continuation without an invalidation event (timer firing, bundle
+   change), at most one signing succeeds and all callers that get a key/cert get the same one. *)
+Theorem C18_single_flight : forall c l1 l2,
+  forallb no_inval l2 = true ->
+  let s1 := fst (run c init l1) in
+  let e2 := snd (run c s1 l2) in
+  (nsigned e2 <= 1)%nat /\ (forall p q, In p (keyed e2) -> In q (keyed e2) -> p = q).
+Proof. exact single_flight. Qed.
+Print Assumptions C18_single_flight.
+
+Example C18_single_flight_nonvacuous :
+  let c := {| c_ratio := (1, -1); c_jitter := (0, 0) |} in
+  let l := [ASpawn 1 RWorkload; ASpawn 2 RWorkload; ACheck1 1; ACheck1 2; ALock 1; ACheck2 1; ALock 2;
+            ATick 5; AReply 1 (CaOk 1000 [1%N] 1%N); ALock 2; ACheck2 2] in
+  forallb no_inval l = true /\ nsigned (snd (run c init l)) = 1%nat /\
+  keyed (snd (run c init l)) = [(1%N, 1%N); (1%N, 1%N)].
+Proof. repeat split; vm_compute; reflexivity. Qed.
+
+(* While a caller is inside CSRSign nobody else holds generateMutex and nothing is cached. *)
+Theorem C18_mutex_discipline : forall c l, inv (fst (run c init l)).
+Proof. intros. apply run_inv. apply inv_init. Qed.
+Print Assumptions C18_mutex_discipline.
+
+(* A successful answer caches the item and schedules exactly one renewal task, no later than expiry. *)
+Theorem C18_renewal_scheduled_before_expiry : forall c s t r k expire bnd cr,
+  pcs s t = PCsr r k -> workload s = None -> now s <= expire ->
+  let '(s1, e) := step c s (AReply t (CaOk expire bnd cr)) in
+  exists q it, queue s1 = queue s ++ [q] /\ workload s1 = Some it
+    /\ i_created it = now s /\ i_expire it = expire /\ i_key it = k /\ i_cert it = k
+    /\ q_created q = now s /\ now s <= q_lo q /\ q_lo q <= q_hi q /\ q_hi q <= expire.
+Proof. exact reply_ok_schedules. Qed.
+Print Assumptions C18_renewal_scheduled_before_expiry.
+
+(* Whenever something is cached there is exactly one queued task that will rotate it (given strictly
+   increasing CreatedTimes, the hypothesis [fresh_run]) ... *)
+Theorem C18_one_rotation_per_cert : forall c l, fresh_run c init l ->
+  forall it, workload (fst (run c init l)) = Some it ->
+  cnt (i_created it) (queue (fst (run c init l))) = 1%nat.
+Proof. intros c l H. exact (one_rotation c l H). Qed.
+Print Assumptions C18_one_rotation_per_cert.
+
+Example C18_fresh_run_satisfiable :
+  let c := {| c_ratio := (1, -1); c_jitter := (0, 0) |} in
+  fresh_run c init [ASpawn 1 RWorkload; ACheck1 1; ALock 1; ACheck2 1; ATick 5; AReply 1 (CaOk 1000 [1%N] 1%N);
+                    ABundle [2%N]; ASpawn 2 RRoot; ACheck1 2; ALock 2; ACheck2 2; ATick 1; AReply 2 (CaOk 2000 [1%N] 1%N)].
+Proof. vm_compute. repeat split; repeat constructor. Qed.
+
+(* ... every other task is a no-op when it fires, and the live one clears the cache and notifies. *)
+Theorem C18_stale_task_noop : forall c s k q,
+  nth_error (queue s) k = Some q ->
+  (forall it, workload s = Some it -> i_created it <> q_created q) ->
+  let '(s1, e) := step c s (AFire k) in
+  workload s1 = workload s /\ cert_root s1 = cert_root s /\ bundle s1 = bundle s /\ e = []
+  /\ queue s1 = remove_nth k (queue s).
+Proof. exact fire_stale. Qed.
+Print Assumptions C18_stale_task_noop.
+
+Theorem C18_live_task_rotates : forall c s k q it,
+  nth_error (queue s) k = Some q -> workload s = Some it -> i_created it = q_created q ->
+  let '(s1, e) := step c s (AFire k) in
+  workload s1 = None /\ e = [ENotify RWorkload (now s)] /\ queue s1 = remove_nth k (queue s).
+Proof. exact fire_live. Qed.
+Print Assumptions C18_live_task_rotates.
+
+(* A failed signing attempt changes nothing but the caller's own result and releases the mutex ... *)
+Theorem C18_failure_not_sticky : forall c s t r k,
+  pcs s t = PCsr r k ->
+  let '(s1, e) := step c s (AReply t CaErr) in
+  workload s1 = workload s /\ cert_root s1 = cert_root s /\ bundle s1 = bundle s /\ queue s1 = queue s
+  /\ lock s1 = None /\ pcs s1 t = PDone /\ e = [ERet t (now s) None].
+Proof. exact reply_err_unchanged. Qed.
+Print Assumptions C18_failure_not_sticky.
+
+(* ... and the next caller signs again. *)
+Theorem C18_failure_next_caller_retries : forall c s t r k t' r',
+  pcs s t = PCsr r k -> workload s = None -> pcs s t' = PIdle ->
+  let s1 := fst (step c s (AReply t CaErr)) in
+  snd (run c s1 [ASpawn t' r'; ACheck1 t'; ALock t'; ACheck2 t']) = [ECsr t' (ncsr s + 1)%N].
+Proof. exact reply_err_next_tries. Qed.
+Print Assumptions C18_failure_next_caller_retries.
+
+(* Root changes.  A generation triggered by a "default" request announces a changed CA root; a trust-bundle
+   change is announced and invalidates the cache. *)
+Theorem C18_root_change_announced_partial : forall c s t k expire bnd cr,
+  pcs s t = PCsr RWorkload k ->
+  let roots := roots_of bnd cr in
+  let '(s1, e) := step c s (AReply t (CaOk expire bnd cr)) in
+  cert_root s1 = roots /\ (cert_root s <> roots -> In (ENotify RRoot (now s)) e).
+Proof. exact reply_ok_workload_announces. Qed.
+Print Assumptions C18_root_change_announced_partial.
+
+Theorem C18_bundle_change_announced : forall c s b,
+  b <> bundle s ->
+  let '(s1, e) := step c s (ABundle b) in
+  bundle s1 = b /\ workload s1 = None /\ e = [ENotify RRoot (now s); ENotify RWorkload (now s)].
+Proof. exact bundle_change_announces. Qed.
+Print Assumptions C18_bundle_change_announced.
+
+(* The full statement ("a changed root is always announced") is false of the faithful model: when the
+   generation is triggered by a ROOTCA request the new roots are cached with the certificate, certRoot
+   stays stale and nobody is notified (known finding root-change-seen-by-rootca-request-not-announced;
+   the same trace is run against the real code as harness case 2). *)
+Theorem C18_root_change_announced_refuted :
+  exists c l t expire,
+    let s := fst (run c init l) in
+    cert_root s = [1%N] /\
+    let '(s1, e) := step c s (AReply t (CaOk expire [2%N] 1%N)) in
+    (exists it, workload s1 = Some it /\ i_root it = [2%N]) /\ cert_root s1 = [1%N] /\
+    e = [ESigned 2; ERet t (now s) (Some {| r_key := Some 2%N; r_cert := Some 2%N; r_created := now s;
+                                            r_expire := expire; r_root := [2%N] |})].
+Proof.
+  exists {| c_ratio := (1, -1); c_jitter := (0, 0) |},
+         [ASpawn 1 RWorkload; ACheck1 1; ALock 1; ACheck2 1; ATick 5; AReply 1 (CaOk 1000 [1%N] 1%N);
+          AFire 0; ASpawn 2 RRoot; ACheck1 2; ALock 2; ACheck2 2; ATick 5],
+         2%N, 2000.
+  vm_compute. repeat split. eexists. split; reflexivity.
+Qed.
+Print Assumptions C18_root_change_announced_refuted.
